@@ -8,7 +8,7 @@ BOUNDS = {
     "quick": "19 URL skeletons x every hole string of length 0..1 (0..2 for the query-escape, redirect and the two path holes after a '%') over all code points (hex digits only for the two holes that follow a '%' in the path) x quoted / strip_suffix in {F,T}; platform_aware=False",
     "thorough": "holes of length 0..2 (3 for path / query / fragment / redirect holes)",
 }
-STUBS = ["see C01 (urlsplit etc. interpreted; UTF-8 / quote / table models; NFKC and idna cuts)"]
+STUBS = ["see C01 (urlsplit etc. interpreted; UTF-8 / quote / table models; exact model of urlsplit's NFKC check; idna cut)"]
 TRUSTED = ["pysx engine", "z3 (relational: no oracle)"]
 ASSUMPTIONS = ["inputs on which a function raises are skipped here (never-raises is C05)", "platform_aware=True not covered by this check",
                "the pair form 'same normalized => same fingerprint' is decided as fingerprint(normalize(u, strip_protocol=False)) == fingerprint(u)"]
